@@ -47,17 +47,17 @@ CHECKS = {
  "C05": dict(
    category="exploration", design_ref="5.C05",
    technique="deterministic multi-party simulation in version-skew configurations: sender and receiver run different versions of a schema chain, message streams with sentinel, reference-model oracle",
-   text="Sender and receiver are simulated peers running different versions (lo < hi, both directions) of generated schema chains (SEQUENCE, SET, DEFAULT-only SEQUENCE, CHOICE, ENUMERATED; 4-9 versions each; the evolving type alone, followed by a tail field, inside SEQUENCE OF, and as OPTIONAL component followed by a string). 1-6 messages plus a sentinel go into one writer; the receiver must decode each to the expected view (old->new: all new additions absent; new->old: the lower-version value), consume exactly the message extent, and the sentinel must decode with 0 bits left. A selected unknown alternative/value may give Err but never Ok. New additions carry payloads up to 300 octets so open-type lengths cross 127/128.",
+   text="Sender and receiver are simulated peers running different versions (lo < hi, both directions) of generated schema chains (SEQUENCE, SEQUENCE with a large first addition, SET, DEFAULT-only SEQUENCE, CHOICE, ENUMERATED; 4-11 versions each; the evolving type alone, followed by a tail field, inside SEQUENCE OF, and as OPTIONAL component followed by a string). 1-6 messages plus a sentinel go into one writer; the receiver must decode each to the expected view (old->new: all new additions absent; new->old: the lower-version value), consume exactly the message extent, and the sentinel must decode with 0 bits left. A selected unknown alternative/value may give Err but never Ok. New additions carry payloads up to 300 octets so open-type lengths cross 127/128.",
    note="Trusted: TreeReader's positional alignment of versions and GenReader (valid mode). Assumed: evolution = appending additions/alternatives/values with AUTOMATIC TAGS; sender-side ExtensionFieldsInconsistent refusals are skipped and counted."),
  "C12": dict(
    category="exploration", design_ref="5.C12",
    technique="deterministic simulation of the module-file environment: module set, load order permutations, match by name vs OID, missing-module fault; literal module as reference model",
-   text="Claimed narrowly for the environment dimension. A small generator prints a schema once with literals and once with a drawn subset replaced by value references placed locally (before/after use), in a sibling imported by name, by name+OID, or by OID only, optionally with a same-named module of another OID (decoy) and an unrelated module; the environment loads the set in every permutation (<= 4 modules) through the real tokenizer, parser and MultiModuleResolver. In every order the resolved definitions must equal those of the literal module; a missing sibling, an undefined reference and a non-integer value used as integer bound must be errors.",
+   text="Claimed narrowly for the environment dimension. A small generator prints a schema once with literals and once with a drawn subset replaced by value references placed locally (before/after use), in a sibling imported by name, by name+OID, by OID only, or re-exported through an import chain over two modules, optionally with a decoy module (same name with another OID or without OID) and an unrelated module; the environment loads the set in every permutation (<= 4 modules) through the real tokenizer, parser and MultiModuleResolver. In every order the resolved definitions must equal those of the literal module; a missing sibling, an undefined reference and a non-integer value used as integer bound must be errors.",
    note="Trusted: the literal module as oracle, Debug equality of resolved definitions. The schema x literal-subset dimension is only sampled; Converter's file I/O is stubbed (its load_file lines are re-stated), generated Rust is not checked."),
  "C14": dict(
    category="fault_enumeration", design_ref="5.C14",
    technique="deterministic simulation with fault injection on stored module text (torn/edited files) through the whole front-end pipeline; out-of-process stack-overflow/hang detection; fault-point enumeration",
-   text="Stored module text (zoo modules, a hand-written corpus covering the README constructs, every inline module of /repo/tests) receives 1-4 storage faults (torn file, char loss/insertion, token deletion/duplication/swap/insertion/replacement incl. reference-name typos, number replacement) or is a token soup, alone or as a 2-3 module scope, and is pushed through Tokenizer -> Model::try_from -> try_resolve / try_resolve_all -> to_rust / to_rust_with_scope -> to_protobuf. Oracle: no panic except the sanctioned unclosed-comment one, no abort / stack overflow / hang (child processes + watchdog). A share of the runs enumerates every truncation point, single-token deletion and adjacent swap of one module.",
+   text="Stored module text (zoo modules, a hand-written corpus covering the README constructs, every inline module of /repo/tests) receives 1-4 storage faults (torn file, char loss/insertion, token deletion/duplication/swap/insertion/replacement incl. reference-name and import-module-name typos, number replacement) or is a token soup, alone or as a 2-3 module scope, and is pushed through Tokenizer -> Model::try_from -> try_resolve / try_resolve_all -> to_rust / to_rust_with_scope -> to_protobuf. Oracle: no panic except the sanctioned unclosed-comment one, no abort / stack overflow / hang (child processes + watchdog). A share of the runs enumerates every truncation point, single-token deletion and adjacent swap of one module.",
    note="Trusted: harness text-fault process. Not checked: whether an edited module is accepted or rejected, error contents, code generation."),
  "C17": dict(
    category="exploration", design_ref="5.C17",
